@@ -4,9 +4,12 @@
 (* FileCache.get_or_compute of cache.py, one label per point at which      *)
 (* another thread or process can observe or change the shared state:       *)
 (*                                                                         *)
-(*   acquire lock . exists? . release lock . [open for reading . read]     *)
+(*   acquire lock . exists? . [open for reading . read] . release lock     *)
 (*   . acquire lock . compute . open for writing (truncates) . write .     *)
 (*   write . close . release lock                                          *)
+(* (The pinned 1.4.0 code read OUTSIDE the lock; the deterministic         *)
+(* scheduler found a reader of a multi-read format - .npy - returning the  *)
+(* header of one writer with the data of the next.  Repaired: fix commit.) *)
 (*                                                                         *)
 (* The file is a sequence of blocks <<writer, index>>; a complete entry is *)
 (* both blocks of one writer.  Values are identified with the caller that  *)
@@ -49,7 +52,7 @@ define
 end define;
 
 process caller \in Callers
-variables exists = FALSE, content = <<>>;
+variables exists = FALSE, content = <<>>, got = FALSE;
 begin
   acq1:  await lock = 0;
          lock := self;
@@ -57,26 +60,23 @@ begin
          completeAtStart[self] := present /\ Complete(file);
          returnedBefore[self] := \E c \in Callers : ret[c] # 0;
   chk:   exists := present;
-  rel1:  lock := 0;
   br:    if exists /\ op[self] # "force" then
-  opnr:     if present then
-  rd:          content := file;              \* read outside the lock, as the code does
-               if Complete(content) then
-                 ret[self] := 100 + content[1][1];
-                 goto fin;
-               elsif op[self] = "get" then
-                 ret[self] := NoVal;           \* unreadable entry: get reports nothing cached
-                 goto fin;
-               end if;
-            else                             \* the file vanished between the check and the open: load error
-               if op[self] = "get" then
-                 ret[self] := NoVal;
-                 goto fin;
-               end if;
+  opnr:     skip;                            \* open for reading - still under the lock (as repaired, see DESIGN.md 0.4)
+  rd:       content := file;
+            if Complete(content) then
+              ret[self] := 100 + content[1][1];
+              got := TRUE;
+            elsif op[self] = "get" then
+              ret[self] := NoVal;             \* unreadable entry: get reports nothing cached
+              got := TRUE;
             end if;
          elsif op[self] = "get" then
             ret[self] := NoVal;
-            goto fin;
+            got := TRUE;
+         end if;
+  rel1:  lock := 0;
+         if got then
+           goto fin;
          end if;
   acq2:  await lock = 0;
          lock := self;
@@ -102,10 +102,11 @@ VARIABLES pc, present, file, lock, op, computed, ret, didCompute, started,
 (* define statement *)
 Mark(w) == [c \in Callers |-> IF c # w /\ c \in started /\ ret[c] = 0 THEN TRUE ELSE disturbed[c]]
 
-VARIABLES exists, content
+VARIABLES exists, content, got
 
 vars == << pc, present, file, lock, op, computed, ret, didCompute, started, 
-           completeAtStart, disturbed, returnedBefore, exists, content >>
+           completeAtStart, disturbed, returnedBefore, exists, content, got
+        >>
 
 ProcSet == (Callers)
 
@@ -124,6 +125,7 @@ Init == (* Global variables *)
         (* Process caller *)
         /\ exists = [self \in Callers |-> FALSE]
         /\ content = [self \in Callers |-> <<>>]
+        /\ got = [self \in Callers |-> FALSE]
         /\ pc = [self \in ProcSet |-> "acq1"]
 
 acq1(self) == /\ pc[self] = "acq1"
@@ -134,61 +136,59 @@ acq1(self) == /\ pc[self] = "acq1"
               /\ returnedBefore' = [returnedBefore EXCEPT ![self] = \E c \in Callers : ret[c] # 0]
               /\ pc' = [pc EXCEPT ![self] = "chk"]
               /\ UNCHANGED << present, file, op, computed, ret, didCompute, 
-                              disturbed, exists, content >>
+                              disturbed, exists, content, got >>
 
 chk(self) == /\ pc[self] = "chk"
              /\ exists' = [exists EXCEPT ![self] = present]
-             /\ pc' = [pc EXCEPT ![self] = "rel1"]
+             /\ pc' = [pc EXCEPT ![self] = "br"]
              /\ UNCHANGED << present, file, lock, op, computed, ret, 
                              didCompute, started, completeAtStart, disturbed, 
-                             returnedBefore, content >>
-
-rel1(self) == /\ pc[self] = "rel1"
-              /\ lock' = 0
-              /\ pc' = [pc EXCEPT ![self] = "br"]
-              /\ UNCHANGED << present, file, op, computed, ret, didCompute, 
-                              started, completeAtStart, disturbed, 
-                              returnedBefore, exists, content >>
+                             returnedBefore, content, got >>
 
 br(self) == /\ pc[self] = "br"
             /\ IF exists[self] /\ op[self] # "force"
                   THEN /\ pc' = [pc EXCEPT ![self] = "opnr"]
-                       /\ ret' = ret
+                       /\ UNCHANGED << ret, got >>
                   ELSE /\ IF op[self] = "get"
                              THEN /\ ret' = [ret EXCEPT ![self] = NoVal]
-                                  /\ pc' = [pc EXCEPT ![self] = "fin"]
-                             ELSE /\ pc' = [pc EXCEPT ![self] = "acq2"]
-                                  /\ ret' = ret
+                                  /\ got' = [got EXCEPT ![self] = TRUE]
+                             ELSE /\ TRUE
+                                  /\ UNCHANGED << ret, got >>
+                       /\ pc' = [pc EXCEPT ![self] = "rel1"]
             /\ UNCHANGED << present, file, lock, op, computed, didCompute, 
                             started, completeAtStart, disturbed, 
                             returnedBefore, exists, content >>
 
 opnr(self) == /\ pc[self] = "opnr"
-              /\ IF present
-                    THEN /\ pc' = [pc EXCEPT ![self] = "rd"]
-                         /\ ret' = ret
-                    ELSE /\ IF op[self] = "get"
-                               THEN /\ ret' = [ret EXCEPT ![self] = NoVal]
-                                    /\ pc' = [pc EXCEPT ![self] = "fin"]
-                               ELSE /\ pc' = [pc EXCEPT ![self] = "acq2"]
-                                    /\ ret' = ret
-              /\ UNCHANGED << present, file, lock, op, computed, didCompute, 
-                              started, completeAtStart, disturbed, 
-                              returnedBefore, exists, content >>
+              /\ TRUE
+              /\ pc' = [pc EXCEPT ![self] = "rd"]
+              /\ UNCHANGED << present, file, lock, op, computed, ret, 
+                              didCompute, started, completeAtStart, disturbed, 
+                              returnedBefore, exists, content, got >>
 
 rd(self) == /\ pc[self] = "rd"
             /\ content' = [content EXCEPT ![self] = file]
             /\ IF Complete(content'[self])
                   THEN /\ ret' = [ret EXCEPT ![self] = 100 + content'[self][1][1]]
-                       /\ pc' = [pc EXCEPT ![self] = "fin"]
+                       /\ got' = [got EXCEPT ![self] = TRUE]
                   ELSE /\ IF op[self] = "get"
                              THEN /\ ret' = [ret EXCEPT ![self] = NoVal]
-                                  /\ pc' = [pc EXCEPT ![self] = "fin"]
-                             ELSE /\ pc' = [pc EXCEPT ![self] = "acq2"]
-                                  /\ ret' = ret
+                                  /\ got' = [got EXCEPT ![self] = TRUE]
+                             ELSE /\ TRUE
+                                  /\ UNCHANGED << ret, got >>
+            /\ pc' = [pc EXCEPT ![self] = "rel1"]
             /\ UNCHANGED << present, file, lock, op, computed, didCompute, 
                             started, completeAtStart, disturbed, 
                             returnedBefore, exists >>
+
+rel1(self) == /\ pc[self] = "rel1"
+              /\ lock' = 0
+              /\ IF got[self]
+                    THEN /\ pc' = [pc EXCEPT ![self] = "fin"]
+                    ELSE /\ pc' = [pc EXCEPT ![self] = "acq2"]
+              /\ UNCHANGED << present, file, op, computed, ret, didCompute, 
+                              started, completeAtStart, disturbed, 
+                              returnedBefore, exists, content, got >>
 
 acq2(self) == /\ pc[self] = "acq2"
               /\ lock = 0
@@ -196,7 +196,7 @@ acq2(self) == /\ pc[self] = "acq2"
               /\ pc' = [pc EXCEPT ![self] = "comp"]
               /\ UNCHANGED << present, file, op, computed, ret, didCompute, 
                               started, completeAtStart, disturbed, 
-                              returnedBefore, exists, content >>
+                              returnedBefore, exists, content, got >>
 
 comp(self) == /\ pc[self] = "comp"
               /\ didCompute' = [didCompute EXCEPT ![self] = TRUE]
@@ -204,7 +204,7 @@ comp(self) == /\ pc[self] = "comp"
               /\ pc' = [pc EXCEPT ![self] = "opnw"]
               /\ UNCHANGED << present, file, lock, op, ret, started, 
                               completeAtStart, disturbed, returnedBefore, 
-                              exists, content >>
+                              exists, content, got >>
 
 opnw(self) == /\ pc[self] = "opnw"
               /\ present' = TRUE
@@ -212,7 +212,8 @@ opnw(self) == /\ pc[self] = "opnw"
               /\ disturbed' = Mark(self)
               /\ pc' = [pc EXCEPT ![self] = "wra"]
               /\ UNCHANGED << lock, op, computed, ret, didCompute, started, 
-                              completeAtStart, returnedBefore, exists, content >>
+                              completeAtStart, returnedBefore, exists, content, 
+                              got >>
 
 wra(self) == /\ pc[self] = "wra"
              /\ file' = Overlay(file, 1, <<self, 1>>)
@@ -220,7 +221,7 @@ wra(self) == /\ pc[self] = "wra"
              /\ pc' = [pc EXCEPT ![self] = "wrb"]
              /\ UNCHANGED << present, lock, op, computed, ret, didCompute, 
                              started, completeAtStart, returnedBefore, exists, 
-                             content >>
+                             content, got >>
 
 wrb(self) == /\ pc[self] = "wrb"
              /\ file' = Overlay(file, 2, <<self, 2>>)
@@ -228,14 +229,14 @@ wrb(self) == /\ pc[self] = "wrb"
              /\ pc' = [pc EXCEPT ![self] = "cls"]
              /\ UNCHANGED << present, lock, op, computed, ret, didCompute, 
                              started, completeAtStart, returnedBefore, exists, 
-                             content >>
+                             content, got >>
 
 cls(self) == /\ pc[self] = "cls"
              /\ TRUE
              /\ pc' = [pc EXCEPT ![self] = "rel2"]
              /\ UNCHANGED << present, file, lock, op, computed, ret, 
                              didCompute, started, completeAtStart, disturbed, 
-                             returnedBefore, exists, content >>
+                             returnedBefore, exists, content, got >>
 
 rel2(self) == /\ pc[self] = "rel2"
               /\ lock' = 0
@@ -243,17 +244,17 @@ rel2(self) == /\ pc[self] = "rel2"
               /\ pc' = [pc EXCEPT ![self] = "fin"]
               /\ UNCHANGED << present, file, op, computed, didCompute, started, 
                               completeAtStart, disturbed, returnedBefore, 
-                              exists, content >>
+                              exists, content, got >>
 
 fin(self) == /\ pc[self] = "fin"
              /\ TRUE
              /\ pc' = [pc EXCEPT ![self] = "Done"]
              /\ UNCHANGED << present, file, lock, op, computed, ret, 
                              didCompute, started, completeAtStart, disturbed, 
-                             returnedBefore, exists, content >>
+                             returnedBefore, exists, content, got >>
 
-caller(self) == acq1(self) \/ chk(self) \/ rel1(self) \/ br(self)
-                   \/ opnr(self) \/ rd(self) \/ acq2(self) \/ comp(self)
+caller(self) == acq1(self) \/ chk(self) \/ br(self) \/ opnr(self)
+                   \/ rd(self) \/ rel1(self) \/ acq2(self) \/ comp(self)
                    \/ opnw(self) \/ wra(self) \/ wrb(self) \/ cls(self)
                    \/ rel2(self) \/ fin(self)
 
@@ -281,8 +282,8 @@ QuiescentComplete == (AllDone /\ present) => (Complete(file) /\ file[1][1] \in c
 \* get never computes
 GetNeverComputes == \A c \in Callers : op[c] = "get" => ~didCompute[c]
 \* the section that computes and stores is mutually exclusive
-MutualExclusion == \A a, b \in Callers : (a # b /\ pc[a] \in {"comp", "opnw", "wra", "wrb", "cls", "rel2"}) =>
-                      pc[b] \notin {"comp", "opnw", "wra", "wrb", "cls", "rel2"}
+Locked == {"chk", "br", "opnr", "rd", "rel1", "comp", "opnw", "wra", "wrb", "cls", "rel2"}
+MutualExclusion == \A a, b \in Callers : (a # b /\ pc[a] \in Locked) => pc[b] \notin Locked
 \* a non-forced call that began when a complete entry was stored and was not disturbed by another writer does not
 \* recompute (DESIGN.md section 8: the reading of "a call that starts after another call has returned")
 NoNeedlessRecompute == \A c \in Callers : (didCompute[c] /\ op[c] = "goc") => (~completeAtStart[c] \/ disturbed[c])
